@@ -79,8 +79,10 @@ def expr(e):
             return "(.var %s)" % lstr("sys.byteorder")      # the host byte order is an input of the block
         return "(.attr %s %s)" % (expr(e.value), lstr(e.attr))
     if isinstance(e, ast.BinOp):
-        if is_strconst(e.left):
+        if is_strconst(e.left) and isinstance(e.op, ast.Mod):
             raise Untranslatable("string formatting with %")
+        if isinstance(e.op, ast.Add) and (is_str(e.left) or is_str(e.right)):
+            return "(.concat %s %s)" % (expr(e.left), expr(e.right))          # text + text
         op = {ast.Add: "add", ast.Sub: "sub", ast.Mult: "mul", ast.BitAnd: "band", ast.BitOr: "bor",
               ast.RShift: "shr", ast.LShift: "shl", ast.Mod: "mod", ast.FloorDiv: "floordiv"}.get(type(e.op))
         if not op:
@@ -146,6 +148,12 @@ def expr(e):
     if isinstance(e, ast.Call) and isinstance(e.func, ast.Attribute) and e.func.attr == "startswith" \
             and len(e.args) == 1 and not e.keywords:
         return "(.startswith %s %s)" % (expr(e.func.value), expr(e.args[0]))
+    if isinstance(e, ast.Call) and isinstance(e.func, ast.Attribute) and e.func.attr == "replace" \
+            and len(e.args) == 2 and not e.keywords:
+        return "(.replace %s %s %s)" % (expr(e.func.value), expr(e.args[0]), expr(e.args[1]))
+    if isinstance(e, ast.Call) and isinstance(e.func, ast.Attribute) and e.func.attr == "find" \
+            and len(e.args) == 2 and not e.keywords and is_intconst(e.args[1]) and e.args[1].value >= 0:
+        return "(.findFrom %s %s %d)" % (expr(e.func.value), expr(e.args[0]), e.args[1].value)
     if isinstance(e, ast.Call) and ast.unparse(e.func) == "os.path.join" and len(e.args) == 2 and not e.keywords \
             and isinstance(e.args[1], ast.Constant) and e.args[1].value == "":
         return "(.joinEmpty %s)" % expr(e.args[0])
@@ -543,7 +551,45 @@ def generate_ce(repo):
     return "\n".join(parts)
 
 
-GENERATORS = [("SliceSrc.lean", generate), ("DapSrc.lean", generate_dap), ("DodsSrc.lean", generate_dods),
+def generate_lib(repo):
+    """lib.py `_quote` / `unquote` (C12's `Quote.quote` / `Quote.unquote`)"""
+    lib = parse_src(repo, "lib.py")
+    QUOTED = "quote_(name.encode('utf-8'), safe=safe)"
+
+    def body_of(name):
+        fn = find_function(lib, name)
+        return [x for x in fn.body if not (isinstance(x, ast.Expr) and is_strconst(x.value))]
+
+    def quote_split():
+        body = body_of("_quote")
+        cut = [i for i, x in enumerate(body) if QUOTED in ast.unparse(x)]
+        if len(cut) != 1:
+            raise Untranslatable("expected exactly one statement that calls %s" % QUOTED)
+        return stmts(body[:cut[0]], None)
+
+    def quote_whole():
+        with abstracting({QUOTED: "@quoted"}, str_vars={"prefix"}):
+            return stmts(body_of("_quote"), None, tail=True)
+
+    def unquote_body():
+        body = body_of("unquote")
+        last = body[-1]
+        if not (isinstance(last, ast.Return) and ast.unparse(last.value) == "unquote_(name)"):
+            raise Untranslatable("expected `return unquote_(name)` last")
+        return stmts(body[:-1], None)
+
+    parts = [HEADER,
+             block("src_quote_split", "lib.py _quote: everything before the statement that calls urllib's quote "
+                   "(`safe = …`, the dap4-prefix test, `prefix` / `name` split)", quote_split),
+             block("src_quote", "lib.py _quote: the whole body; `quote_(name.encode('utf-8'), safe=safe)` is the input "
+                   "`@quoted` (its argument `name` is tied by src_quote_split), `return e` is `@ret = e`", quote_whole),
+             block("src_unquote_replaces", "lib.py unquote: everything before `return unquote_(name)` (the three "
+                   "`.replace` passes on `name`)", unquote_body),
+             "end Pydap.Gen\n"]
+    return "\n".join(parts)
+
+
+GENERATORS = [("LibSrc.lean", generate_lib), ("SliceSrc.lean", generate), ("DapSrc.lean", generate_dap), ("DodsSrc.lean", generate_dods),
               ("AppSrc.lean", generate_app), ("CeSrc.lean", generate_ce)]
 
 
